@@ -166,18 +166,25 @@ fn scan_dot(cur: &mut Peekable<CharIndices>) -> Result<Token, Error> {
         _ => TokenType::Dot,
     };
 
+    // the sign of an exponent belongs to the number (.5e-3), as in scan_number
+    let mut mantissa = true;
+    let mut digits = false;
+    let mut marker = false;
     while let Some(&(offset, c)) = cur.peek() {
         if c == '.' {
             token_type = TokenType::Symbol;
         }
         let check = match token_type {
             TokenType::Symbol => is_subsequent_identifier(c),
-            TokenType::Number => is_subsequent_number(c),
+            TokenType::Number => is_subsequent_number(c) || (marker && (c == '+' || c == '-')),
             _ => false,
         };
         if !check && start != end {
             break;
         }
+        marker = mantissa && digits && (c == 'e' || c == 'E');
+        mantissa = mantissa && c.is_ascii_digit();
+        digits = digits || c.is_ascii_digit();
         end = offset + c.len_utf8();
         cur.next();
     }
@@ -296,14 +303,23 @@ fn scan_number(cur: &mut Peekable<CharIndices>) -> Result<Token, Error> {
     let start = cur.peek().unwrap().0;
     let mut end = start;
     let mut token_type = TokenType::Number;
+    // The sign of an exponent (1e-7, 2.5E+3) belongs to the number: it is accepted
+    // directly after an exponent marker that follows a decimal mantissa.
+    let mut mantissa = true;
+    let mut digits = false;
+    let mut marker = false;
     while let Some(&(offset, c)) = cur.peek() {
-        if !is_subsequent_number(c) && start != end {
+        let exponent_sign = marker && (c == '+' || c == '-');
+        if !is_subsequent_number(c) && start != end && !exponent_sign {
             if is_subsequent_identifier(c) && c != ';' {
                 token_type = TokenType::Symbol;
             } else {
                 break;
             }
         }
+        marker = mantissa && digits && (c == 'e' || c == 'E');
+        mantissa = mantissa && (c.is_ascii_digit() || c == '.' || start == end);
+        digits = digits || c.is_ascii_digit();
         end = offset + c.len_utf8();
         cur.next();
     }
